@@ -67,11 +67,35 @@ class ModuleInfo:
                 # harness files: `if NATIVE: ... else: ...` - NATIVE is False on the symbolic side, so the else branch is the
                 # one that defines the module's names (taking the body would silently make symbolic constants concrete)
                 self._scan(node.orelse)
+            elif isinstance(node, ast.Try) and self._import_fails(node):
+                # try: from mpi4py import MPI; NAME = ... / except ImportError: ...  - the interpreter that runs armi here
+                # (/venv, the native side of every lemma) has no mpi4py: the import raises, the REST of the try body never
+                # runs and the handler does.  Taking the body's assignments would give names values they never get.
+                for h in node.handlers:
+                    self._scan(h.body)
             elif isinstance(node, (ast.If, ast.Try)):
                 # e.g. try: import x / except ImportError
                 self._scan(node.body)
             else:
                 self._scan_mutation(node)
+
+    ABSENT_MODULES = ("mpi4py",)  # optional dependencies that are not installed where armi runs (serial runs only)
+
+    @classmethod
+    def _import_fails(cls, node):
+        first = node.body[0] if node.body else None
+        mods = []
+        if isinstance(first, ast.Import):
+            mods = [a.name for a in first.names]
+        elif isinstance(first, ast.ImportFrom) and not first.level:
+            mods = [first.module or ""]
+        if not any(m.split(".")[0] in cls.ABSENT_MODULES for m in mods):
+            return False
+        for h in node.handlers:
+            names = [h.type] if not isinstance(h.type, ast.Tuple) else list(h.type.elts)
+            if h.type is None or any(getattr(n, "id", None) in ("ImportError", "ModuleNotFoundError", "Exception") for n in names):
+                return True
+        return False
 
     @staticmethod
     def _mutated_name(node):
